@@ -119,10 +119,13 @@ theorem wrapper_none_uniform (env : Env) (qs : Qsvs) (oi : OpInfo) (t : Tensor) 
       · split at h
         · obtain ⟨mm, _, h⟩ := bind_ok _ _ _ h
           exact fin _ h
+        · obtain ⟨mm, _, h⟩ := bind_ok _ _ _ h
+          exact fin _ h
+      · split at h
         · obtain ⟨mm, hmm, h⟩ := bind_ok _ _ _ h
           cases hmm
-      · obtain ⟨mm, _, h⟩ := bind_ok _ _ _ h
-        exact fin _ h
+        · obtain ⟨mm, _, h⟩ := bind_ok _ _ _ h
+          exact fin _ h
     · cases hg
     · obtain ⟨p, hp, h⟩ := bind_ok _ _ _ h
       simp only [pure, Except.pure, Except.ok.injEq] at hp
@@ -181,10 +184,13 @@ theorem wrapper_spec (env : Env) (qs : Qsvs) (oi : OpInfo) (t : Tensor) (inbound
       · split at h
         · obtain ⟨mm, _, h⟩ := bind_ok _ _ _ h
           exact fin _ h
+        · obtain ⟨mm, _, h⟩ := bind_ok _ _ _ h
+          exact fin _ h
+      · split at h
         · obtain ⟨mm, hmm, h⟩ := bind_ok _ _ _ h
           cases hmm
-      · obtain ⟨mm, _, h⟩ := bind_ok _ _ _ h
-        exact fin _ h
+        · obtain ⟨mm, _, h⟩ := bind_ok _ _ _ h
+          exact fin _ h
     · -- borrowed parameters without data
       split at h
       · rename_i d hdat
